@@ -5,6 +5,9 @@ import json, subprocess
 HOOK_COMMITS = []  # filled in as hook commits are made in /repo
 
 CHECKS = {
+ "C18": dict(cat="exploration", technique="runtime differential monitor: real Parser.Parse vs an independent interpreter of the exported grammar table (explicit end of input) on the kinds the real lexer emits; accessor-level meaning fingerprints on reused vs fresh parsers",
+   text="Complete for all token sequences up to length 3 (quick) / 4 (thorough, 9.3 M) over the 55 token kinds; sampled grammar-derived sentences and single-token mutations; sampled statement histories on one Parser instance with accepted, truncated-at-every-token and token-replaced earlier statements.",
+   note="Trusted: the reference recogniser (gram.Recognize) and the fingerprint's coverage of exported accessors; unrealisable kind sequences are skipped.", ref="DESIGN.md §5 C18"),
  "C16": dict(cat="exploration", technique="runtime monitor on the real lexer's token stream (termination watchdog, end-token rule, substring embedding, capacity independence, metamorphic case/whitespace variants, printed-value tokens, goroutine-leak snapshot)",
    text="Complete for all strings up to length 3 (quick) / 4 (thorough) over a 25-character alphabet at four channel capacities; sampled grammar-derived statements, mutations, random UTF-8/invalid bytes and printed values.",
    note="Trusted: greedy leftmost embedding decides substring order; whitespace variants only alter whitespace between two token texts; one known finding (printed literal ending in a backslash).", ref="DESIGN.md §5 C16"),
